@@ -33,7 +33,7 @@ const (
 	t6 = 10 * time.Second
 )
 
-var conditions = []string{"never-opened", "closed", "connecting", "not-selected", "deselected", "deselected-fast", "between-generations"}
+var conditions = []string{"never-opened", "closed", "connecting", "not-selected", "not-selected-orphan-selrsp", "deselected", "deselected-fast", "between-generations"}
 
 func main() {
 	c := vh.New()
@@ -130,7 +130,7 @@ func (x *cell) establish(cond string, active bool) (peerUp bool, opened bool, ok
 			return false, true, false
 		}
 		return false, true, true // listening, nobody connected
-	case "not-selected":
+	case "not-selected", "not-selected-orphan-selrsp":
 		if !openBg() || !connect() {
 			return false, true, false
 		}
@@ -144,6 +144,32 @@ func (x *cell) establish(cond string, active bool) (peerUp bool, opened bool, ok
 		if err := e.WaitState(hsms.NotSelectedState, 3*time.Second); err != nil {
 			x.fail(err.Error())
 			return true, true, false
+		}
+		if cond == "not-selected-orphan-selrsp" {
+			// an ORPHAN Select.rsp(0): system bytes of no open Select transaction (passive: none was
+			// ever sent; active: the own Select.req is still unanswered and has other system bytes).
+			// It must be answered Reject(3) and must NOT select the session.
+			orphan := sc.SelectRsp(e.Sid, 0, 0xD0000001)
+			if _, err := x.p.SendF(orphan); err != nil {
+				x.fail("orphan Select.rsp: " + err.Error())
+				return true, true, false
+			}
+			var rej []sc.Frame
+			if !x.p.Barrier(func(f sc.Frame) {
+				if f.ST == 7 {
+					rej = append(rej, f)
+				}
+			}) {
+				x.fail("barrier after the orphan Select.rsp")
+				return true, true, false
+			}
+			if len(rej) != 1 || rej[0].B3 != 3 || rej[0].Sys != orphan.Sys || rej[0].B2 != 2 {
+				x.c.Fail("C07: an orphan Select.rsp(0) was not answered with exactly one Reject(reason 3) echoing its SType and system bytes",
+					x.what+" | "+sc.Render(e.Rec.Entries()))
+			}
+			if st := e.Conn.State(); st != hsms.NotSelectedState {
+				x.c.Fail(fmt.Sprintf("C07: an orphan Select.rsp(0) moved the connection to %v", st), x.what+" | "+sc.Render(e.Rec.Entries()))
+			}
 		}
 		return true, true, true
 	case "deselected", "deselected-fast":
@@ -667,9 +693,50 @@ func gateScenarios(c *vh.Ctx, active bool) {
 			return acts, e, nil
 		}}
 	}
+	// an orphan Select.rsp(0) while connected-not-selected: Reject(3), no commit; the next send is refused
+	mkOrphan := func(ep string) sn {
+		return sn{"orphan-selrsp/" + ep, func() ([]string, *sc.Env, error) {
+			e, err := sc.NewEnv(false, 1, t3, t6)
+			if err != nil {
+				return nil, nil, err
+			}
+			if err := e.Open(false); err != nil {
+				return nil, e, err
+			}
+			p, err := e.Connect(3 * time.Second)
+			if err != nil {
+				return nil, e, err
+			}
+			defer p.Close()
+			if err := e.WaitState(hsms.NotSelectedState, 3*time.Second); err != nil {
+				return nil, e, err
+			}
+			orphan := sc.SelectRsp(e.Sid, 0, 0xD0000001)
+			if _, err := p.SendF(orphan); err != nil {
+				return nil, e, err
+			}
+			if _, ok := p.Wait(3*time.Second, func(f sc.Frame) bool { return f.ST == 7 }, nil); !ok {
+				return nil, e, fmt.Errorf("no Reject for the orphan Select.rsp")
+			}
+			acts := []string{"N", "U", "P " + orphan.M(), "D", "Q1"}
+			e.Cond(true)
+			e.Metric()
+			acts = append(acts, "C", "M")
+			e.Call(context.Background(), ep, 1)
+			for _, en := range e.Rec.Entries() {
+				if en.K == 'S' && en.ID == 1 {
+					f := *en.F
+					acts = append(acts, fmt.Sprintf("S 1 %s %s", en.Kind, f.M()), "G 1 go", "G 1 go")
+				}
+			}
+			e.Metric()
+			acts = append(acts, "M")
+			return acts, e, nil
+		}}
+	}
 	var list []sn
 	for _, ep := range sc.EntryPoints {
-		list = append(list, mk(ep.Name, false), mk(ep.Name, true), mkB2(ep.Name))
+		list = append(list, mk(ep.Name, false), mk(ep.Name, true), mkB2(ep.Name), mkOrphan(ep.Name))
 	}
 	for _, s := range list {
 		acts, e, err := s.run()
